@@ -40,6 +40,23 @@ check("C11", "exploration",
       "Trusted: limit model (2^38 bytes for Ietf, none below 2^64 bytes otherwise), spec model as filter, real-code differential as decider. Relaxed: requests beyond 2^64 bytes on 64-bit-counter variants.",
       "deterministic simulation with fault injection (keystream exhaustion) + reference model", "6.2")
 
+check("C03", "exploration",
+      "Every seeded run of the cipher, block-API and dispatching-hash scenarios is executed on all five run-time capability levels in one process (hook H1 makes the detection result a simulated input) and, with the same seed, in six separately built workers (portable/no_simd and the five no-std compile-time dispatch arms); transcripts must be identical after every step / per run. A panic or wrong result on one host where another returns is a violation.",
+      "Trusted: hook H1 takes exactly the arm a real CPU of that level would take (its match arms mirror the detection chains); the real CPU must support the simulated level (AVX2 here). Vector operations that no algorithm uses are not exercised.",
+      "deterministic simulation: simulated CPU-capability hosts (run-time via hook, build-time via features) + cross-host transcript equality", "6.5")
+check("C08", "exploration",
+      "Seeded search over update/chain/clone/reset/finalize_reset/finalize/drop histories on interleaved instances of all 15 hash types (+4 more Skein output sizes), pieces aimed at every buffer fill level and padding boundary; every digest is compared with the same type's one-shot digest of the modelled byte string, so only history dependence (not spec conformance) can raise an alarm.",
+      "Trusted: the byte-list model; Digest::digest of the same type as oracle. Runs are capped at 64 KiB.",
+      "deterministic simulation: seeded operation histories + byte-list reference model", "6.6")
+check("C14", "exploration",
+      "Seeded block-API histories with counters aimed at every carry lane (low word within 4 of 2^32) and at the 2^64 wrap, double rounds 0..=10, on every simulated host (five in-process levels, portable and five no-std builds): refill4 versus four refills from a cloned state (bytes and resulting state), counter/stream-id read back after every step, emitted block compared with the spec block of the modelled counter.",
+      "Trusted: the counter model; the spec block function only to recognise position errors (a block that equals the spec block of a nearby counter). Other spec deviations are C01 territory.",
+      "deterministic simulation: seeded operation histories on simulated hosts + state model + real-code differential", "6.3")
+check("C15", "exploration",
+      "Seeded set/get/refill/derive histories: round trip and isolation of both stream parameters over the full 64-bit range, equality of state and following output with a state created directly through new(), and the two stream-equality predicates against their definition on pairs that differ in exactly one word (or nothing, or only position).",
+      "Trusted: the four-word parameter model and the statement's definition of stream equality.",
+      "deterministic simulation: seeded operation histories + state model", "6.4")
+
 def main():
     m = dict(
         version=1,
@@ -58,7 +75,7 @@ def main():
         notes="Exit codes: 0 held, 1 VIOLATION line, 2 harness error. VERIF_SEED selects the exploration (default 1). Known findings: known_findings.json. See DESIGN.md.",
     )
     claimed = set(CHECKS)
-    pending = [p for p in ["C03","C08","C14","C15","C16","C17","C18"] if p not in claimed]
+    pending = [p for p in ["C16","C17","C18"] if p not in claimed]
     for p in pending:
         m["not_applicable"].append(dict(property_id=p, reason="applicable (see DESIGN.md) but its check is not built yet in this commit; not claimed until it is"))
     m["not_applicable"].sort(key=lambda e: e["property_id"])
